@@ -12,6 +12,11 @@ open Zog Helpers
 /-- regenerated fact: `cloneShallow` copies the `tests` and `postTransforms` backing arrays -/
 theorem clone_copies : Gen.cloneCopies = true := by decide
 
+/-- the helpers never assign to a field or element of their receiver or of an operand (regenerated go/ast
+    fact over every function of struct_helpers.go): they build new schemas and only READ the ones they are
+    given — so a base schema may be derived from while other goroutines execute it -/
+theorem helpers_write_no_operand : Gen.helperOperandWrites = [] := by decide
+
 /-- **Refinement.** For every program over Struct / Test / Pick / Omit / Extend / Merge — all
     orders in which derived schemas are created and extended — and every slice growth policy, every
     schema object of the heap machine (Go slice headers with spare capacity, in-place `append`)
